@@ -1317,6 +1317,16 @@ func TestCLI(t *testing.T) {
 			for k := rapid.IntRange(1, 2).Draw(t, "extra"); k > 0; k-- {
 				c.Extra = append(c.Extra, one())
 			}
+			if rapid.IntRange(0, 7).Draw(t, "ragged") == 0 {
+				// one of the alignments of the file - the first, a middle or the last one - is not
+				// rectangular (its last row is one residue short): the command must report it
+				all := append([][]gen.Row{c.Rows}, c.Extra...)
+				rows := all[rapid.IntRange(0, len(all)-1).Draw(t, "raggedat")]
+				if last := &rows[len(rows)-1]; len(rows) >= 2 && len(last.Seq) >= 2 {
+					last.Seq = last.Seq[:len(last.Seq)-1]
+					c.Ragged = true
+				}
+			}
 			return c
 		}
 		if c.Cmd == "dedup" {
@@ -1434,9 +1444,9 @@ func TestCLI(t *testing.T) {
 		}
 		if c.Ragged {
 			if r.Exit == 0 {
-				return o, fmt.Errorf("goalign %v: rows of different lengths accepted with status 0\n input: %s", args, showRows(c.Rows))
+				return o, fmt.Errorf("goalign %v: rows of different lengths accepted with status 0\n input: %q", args, trunc(input, 600))
 			}
-			o.Class("refused:ragged-alignment")
+			o.Class("refused:ragged-alignment,multi=%v", multi)
 			return o, nil
 		}
 		if r.Exit != 0 {
